@@ -58,6 +58,7 @@ def check(rep: Report, ctx: Ctx) -> None:
     r17(rep, ctx)
     r18(rep, ctx)
     r19(rep, ctx)
+    r110(rep, ctx)
 
 
 def r18(rep: Report, ctx: Ctx) -> None:
@@ -570,3 +571,65 @@ def r19(rep: Report, ctx: Ctx) -> None:
                        "jobs that ran it once per branch are rejected)"
                        if hit is not None else
                        "no de-duplicating construct on the way"))
+
+
+# --------------------------------------------------------------------------
+def r110(rep: Report, ctx: Ctx) -> None:
+    """The gate tree of an event is translated into the node's logic lists
+    *totally*: every child of every operator node is visited, with the
+    bookkeeping arguments handed on unchanged.  A child that is skipped is a
+    branch the diagram does not have - the jobs that took it are rejected."""
+    rep.rule("R1.10", "every child of a gate-tree node is translated (no "
+             "filter, no early exit), bookkeeping forwarded unchanged", 4)
+    fi = ctx.func("Node._load_logic_into_logic_list")
+    tree_p = fi.params()[1]
+    loops = [l for l in ast.walk(fi.node) if isinstance(l, ast.For)
+             and isinstance(l.iter, ast.Attribute)
+             and l.iter.attr == "children"
+             and isinstance(l.iter.value, ast.Name)
+             and l.iter.value.id == tree_p]
+    rep.ob("R1.10", "one child loop per operator kind (BRANCH, SEQUENCE, "
+           "gate)", len(loops) >= 3, fi=fi, node=fi.node,
+           detail=f"{len(loops)} loop(s) over {tree_p}.children")
+    for l in loops:
+        tgt = l.target.id if isinstance(l.target, ast.Name) else "?"
+        body = [s for s in l.body]
+        jumps = [n for s in body for n in ast.walk(s)
+                 if isinstance(n, (ast.Break, ast.Continue, ast.Return,
+                                   ast.If))]
+        rec = [c for s in body for c in ast.walk(s)
+               if isinstance(c, ast.Call)
+               and call_name(c) == fi.node.name]
+        ok = not jumps and len(rec) == 1
+        if ok:
+            c = rec[0]
+            a_tree = actual(c, fi, tree_p)
+            ok = isinstance(a_tree, ast.Name) and a_tree.id == tgt
+            for p in fi.params()[2:]:
+                a = actual(c, fi, p)
+                ok = ok and isinstance(a, ast.Name) and a.id == p
+        rep.ob("R1.10", f"loop over {tree_p}.children", ok, fi=fi, node=l,
+               detail=("every child is handed to the recursion with "
+                       f"{fi.params()[2:]} unchanged" if ok else
+                       "a child can be skipped, or the recursion does not "
+                       "receive the child / the shared bookkeeping"))
+    # the gate node built for an operator is registered after its children
+    regs = [c for c in ast.walk(fi.node) if isinstance(c, ast.Call)
+            and call_name(c) == "update_logic_list"]
+    gates = [c for c in regs if c.args and isinstance(c.args[0], ast.Name)
+             and any(isinstance(b.value, ast.Call) and call_name(b.value)
+                     == "Node" for b in ctx.defs(fi).of(c.args[0].id))]
+    ok = len(gates) == 1
+    rep.ob("R1.10", "the gate node is added to the logic list", ok, fi=fi,
+           node=gates[0] if gates else fi.node,
+           detail="self.update_logic_list(<new gate node>, direction)")
+    tl = ctx.func("Node.traverse_logic")
+    rec = [c for c in ast.walk(tl.node) if isinstance(c, ast.Call)
+           and call_name(c) == "traverse_logic"]
+    loops2 = [l for l in ast.walk(tl.node) if isinstance(l, ast.For)]
+    ok = len(rec) == 1 and len(loops2) == 1 and not any(
+        isinstance(n, (ast.Break, ast.Continue, ast.Return))
+        for s in loops2[0].body for n in ast.walk(s))
+    rep.ob("R1.10", "the logic lists are flattened totally", ok, fi=tl,
+           node=loops2[0] if loops2 else tl.node,
+           detail="leaf -> append, gate -> extend(recurse), for every entry")
